@@ -841,6 +841,9 @@ impl<'a> Ref<'a> {
                         if need >= (1u128 << 64) {
                             ev.insert("count*width>=2^64".into());
                         }
+                        if need >= (1u128 << 32) {
+                            ev.insert("count*width>=2^32".into());
+                        }
                         if (cur.len() as u128) < need {
                             return Err(DecErr::Length);
                         }
@@ -861,6 +864,9 @@ impl<'a> Ref<'a> {
                             let need = (n as u128) * (ew as u128);
                             if need >= (1u128 << 64) {
                                 ev.insert("count*width>=2^64".into());
+                            }
+                            if need >= (1u128 << 32) {
+                                ev.insert("count*width>=2^32".into());
                             }
                             if (cur.len() as u128) < need {
                                 ev.insert("truncated@array".into());
